@@ -59,8 +59,19 @@ class UnitResult:
         self.portfolio = None
 
 
+def spec_lemmas(ex):
+    names = []
+    for t, origin in ex.out.chunks:
+        if origin[0] == 'prelude':
+            for m in re.finditer(r'(#\[verifier::external_body\]\s*)?pub\s+proof\s+fn\s+(\w+)|(#\[verifier::external_body\]\s*)?\bproof\s+fn\s+(\w+)', t):
+                if m.group(1) or m.group(3):
+                    continue
+                names.append(m.group(2) or m.group(4))
+    return names
+
+
 def obligations_of(ex):
-    obs = []
+    obs = ['%s/spec#lemma:%s' % (ex.name, n) for n in spec_lemmas(ex)]
     for q, rel, status in ex.functions:
         if status == 'proved':
             obs.append('%s/%s#safety' % (ex.name, q))
@@ -106,7 +117,12 @@ def describe_span(ex_name, spans, starts, sp, repo):
         # inserted text may have a leading newline added by the extractor
         return {'kind': 'contract', 'fn': fn, 'block': block, 'offset': off, 'ctext': text}
     if k == 'prelude':
-        return {'kind': 'prelude', 'name': origin[1]}
+        # enclosing lemma: last `proof fn NAME` before the offset in this chunk
+        lemma = None
+        for (cs, ce, o) in spans:
+            if o is origin and cs <= sp['byte_start'] < ce:
+                pass
+        return {'kind': 'prelude', 'name': origin[1], 'offset': off}
     return {'kind': 'glue'}
 
 
@@ -246,6 +262,14 @@ def run_unit(unit_path, repo, verif, workdir, threads=8, twin=True, log=None):
         prim = [s for s in d.get('spans', []) if s.get('is_primary')]
         sec = [s for s in d.get('spans', []) if not s.get('is_primary')]
         pdesc = describe_span(res.name, spans, starts, prim[0], repo) if prim else {'kind': 'unknown'}
+        if pdesc.get('kind') == 'prelude':
+            for t, origin in ex.out.chunks:
+                if origin[0] == 'prelude' and origin[1] == pdesc['name']:
+                    head = t.encode('utf-8')[:pdesc.get('offset', 0)].decode('utf-8', 'ignore')
+                    mm = re.findall(r'proof\s+fn\s+(\w+)', head)
+                    if mm:
+                        pdesc['lemma'] = mm[-1]
+                    break
         sdescs = [describe_span(res.name, spans, starts, s, repo) for s in sec]
         f = {'message': msg, 'kind': kind, 'rendered': d.get('rendered', '')[:3000]}
         contract = None
@@ -277,8 +301,8 @@ def run_unit(unit_path, repo, verif, workdir, threads=8, twin=True, log=None):
             ob = '%s/%s#safety' % (res.name, src['fn'])
             f['detail'] = '%s at %s:%d' % (kind, src['file'], src['line'])
         elif pdesc['kind'] == 'prelude':
-            ob = '%s/spec#%s' % (res.name, pdesc.get('name'))
-            f['detail'] = 'inside the specification library'
+            ob = '%s/spec#lemma:%s' % (res.name, pdesc.get('lemma') or pdesc.get('name'))
+            f['detail'] = 'inside the specification library (%s)' % pdesc.get('name')
         else:
             ob = '%s/?#%s' % (res.name, kind)
         f['obligation'] = ob
